@@ -1,7 +1,7 @@
 (* Properties_C12.v — port fidelity of the Address constructors, for EVERY byte string.
    getaddrinfo parses a numeric service with strtoul (blanks, optional sign, digits) and silently reduces it modulo 65536;
    sockpuppet's part is to reject such a service before it gets there, in every position a service can be written. *)
-From SP Require Import Base ListAux AddressModel AddressLemmas.
+From SP Require Import Base ListAux AddressModel AddressLemmas AddressSpelling.
 Local Open Scope Z_scope.
 
 Lemma range_checked s : check_service_range s = None ->
@@ -58,6 +58,23 @@ Proof. exact AddressLemmas.port_of_encode4. Qed.
 Theorem port_of_encode6 : forall ip p f s, 0 <= p < 65536 -> port_of (encode6 ip p f s) = p.
 Proof. exact AddressLemmas.port_of_encode6. Qed.
 
+(* spelling equivalence: "host:port" as a URI and (host, port) as a pair hand the same two texts to the resolver, for every
+   plain host (letters, digits, '_', '.', '-') and every in-range port text; "[h]:port" hands (h, port) — the brackets are
+   syntax, not part of the host *)
+Theorem uri_host_port_is_pair : forall host port,
+  forallb plain_char host = true -> host <> [] -> forallb is_digit port = true -> port <> [] ->
+  (length (host_port host port) <= AUTHORITY_MAX)%nat ->
+  check_service_range port = None -> (length port <= SERV_MAX)%nat ->
+  uri_dissect (host_port host port) = DOk host port true /\ hostserv_dissect host port = DOk host port false.
+Proof. exact AddressSpelling.uri_host_port_is_pair. Qed.
+
+Theorem uri_bracket_port_is_pair : forall h6 port,
+  forallb (fun c => negb (is_slash c)) h6 = true -> forallb (fun c => negb (is_newline c)) h6 = true ->
+  forallb is_digit port = true -> port <> [] ->
+  (length (bracket_port h6 port) <= AUTHORITY_MAX)%nat ->
+  check_service_range port = None -> uri_dissect (bracket_port h6 port) = DOk h6 port true.
+Proof. exact AddressSpelling.uri_bracket_port_is_pair. Qed.
+
 Example c12_nonvacuous :
   uri_dissect [57;57;57;57;57;58;47;47;49;46;50;46;51;46;52] = DExn (RuntimeErr 1) /\       (* "99999://1.2.3.4" *)
   hostserv_dissect [49;46;50;46;51;46;52] [32;43;57;57;57;57;57] = DExn (RuntimeErr 1) /\   (* ("1.2.3.4", " +99999") *)
@@ -67,6 +84,8 @@ Example c12_nonvacuous :
 Proof. vm_compute. repeat split; reflexivity. Qed.
 
 Print Assumptions no_silent_wrap_uri.
+Print Assumptions uri_host_port_is_pair.
+Print Assumptions uri_bracket_port_is_pair.
 Print Assumptions no_silent_wrap_pair.
 Print Assumptions pair_service_unchanged.
 Print Assumptions port_of_encode4.
